@@ -21,15 +21,13 @@ func (certificate *Certificate) Marshal() ([]byte, error) {
 }
 
 func (certificate *Certificate) Unmarshal(b []byte) error {
-	if len(b) > 0 {
-		// bounds checking
-		if len(b) <= 1 {
-			return errors.Errorf("Certificate: No sufficient bytes to decode next certificate")
-		}
-
-		certificate.CertificateEncoding = b[0]
-		certificate.CertificateData = append(certificate.CertificateData, b[1:]...)
+	// bounds checking
+	if len(b) <= 1 {
+		return errors.Errorf("Certificate: No sufficient bytes to decode next certificate")
 	}
+
+	certificate.CertificateEncoding = b[0]
+	certificate.CertificateData = append(certificate.CertificateData, b[1:]...)
 
 	return nil
 }
